@@ -2758,8 +2758,14 @@ def orbital_equinox2equinox(epoch0, epoch, i0, arg0, lon0):
     pir = pie.rad()
     # If i0 is zero, the procedure is different
     if i0 == 0.0:
-        i1 = eta
-        lon1 = pie + p + 180.0
+        # Going back in time eta is negative: the inclination is its size
+        # and the ascending node is on the opposite side
+        if eta < 0.0:
+            i1 = -eta
+            lon1 = pie + p
+        else:
+            i1 = eta
+            lon1 = pie + p + 180.0
     else:
         a = sin(i0r) * sin(lon0r - pir)
         b = -sin(etar) * cos(i0r) + cos(etar) * sin(i0r) * cos(lon0r - pir)
